@@ -34,7 +34,7 @@ ASSUMPTIONS = [
     "finding in three regimes (no neutrals / one charge type / both charges with < 18 neutrals); in the >= 18 "
     "neutral regime it would be reported as a violation",
 ]
-REQUIRED = {"all": ["clamp_observed", "sentinel_observed", "ratio_in_unit_interval", "cached_dmax_path",
+REQUIRED = {"all": ["longer_than_1000", "clamp_observed", "sentinel_observed", "ratio_in_unit_interval", "cached_dmax_path",
                     "maximiser_cases", "hill_climb_cases_ge18_neutrals", "ordered_composition_cases", "sweep_compositions", "unbalanced_composition_cases"]}
 LC = {"quick": 10, "thorough": 12}
 LP = {"quick": 9, "thorough": 11}
@@ -72,6 +72,9 @@ def cases(tier, seed):
     # hundreds of distinct compositions in ONE process, then the first ones again (new objects, new spellings):
     # delta-max must not depend on how many other compositions were analysed in between
     yield {"k": "sweep", "count": 420 if tier == "quick" else 1500, "again": 80}
+    # chains of more than 1000 residues that share their first and last residues and differ inside, analysed one after another
+    # in one process (few charges of both signs and many neutrals keep the delta-max search to its 49 candidates)
+    yield {"k": "longs", "lens": [1100, 1100, 1250] if tier == "quick" else [1100, 1100, 1250, 2100, 2100]}
     rng = gen.sub_rng(seed, ID, "random")
     # >= 18 neutral residues: exhaustive search is out of reach, so a hill-climb on delta (own reference) looks for an
     # arrangement beating the documented family; there a kappa above 1 would be a violation (no known finding applies)
@@ -242,6 +245,18 @@ def judge(case, rep, S):
         rng.shuffle(mixed)
         for arr in (blocky, blocky[::-1], mixed):
             judge_seq(rep, S, gen.spell(rng, arr), case["o"], "unbalanced composition %r" % (case["c"],))
+    elif case["k"] == "longs":
+        rng = gen.sub_rng(0, ID, "longs")
+        ends = "EGGKQS"
+        seqs = []
+        for n in case["lens"]:
+            body = [rng.choice("GSQNATP") for _ in range(n - 2 * len(ends))]
+            for pos in rng.sample(range(len(body)), rng.randint(6, 30)):
+                body[pos] = rng.choice("KRDE")
+            seqs.append(ends + "".join(body) + ends[::-1])
+        for j, s in enumerate(seqs + seqs[:1]):
+            rep.cnt("longer_than_1000")
+            judge_seq(rep, S, s, j, "chain #%d of %d chains of %r residues sharing both ends, analysed in this order in one process" % (j, len(seqs), case["lens"]))
     elif case["k"] == "sweep":
         rng = gen.sub_rng(0, "sweep")
         comps = gen.distinct_compositions(rng, case["count"], 8, 26)
